@@ -85,6 +85,18 @@ static inline unsigned long rd_word(void)
 }
 #endif
 
+#if VP_TSAN
+extern void __tsan_release(void *);
+#endif
+static inline unsigned long *rd_word_addr(void)
+{
+#if VP_IS_BP
+	return URCU_TLS(urcu_bp_reader) ? &URCU_TLS(urcu_bp_reader)->ctr : NULL;
+#else
+	return &URCU_TLS(rcu_reader).ctr;
+#endif
+}
+
 /* ------------------------------------------------------------------ objects */
 
 struct obj {
@@ -185,6 +197,7 @@ struct thr {
 	int masked_by_lib;	/* bp: library's SIG_BLOCK returned, restore not yet started */
 	int suspended;		/* stepping suspended by the pthread_sigmask shim */
 	int registered;
+	unsigned long *word_addr;	/* for the stuck-state witness */
 	struct secs secs[MAXD + 1];	/* [0] thread level, [d] handler depth d */
 	struct waits waits;
 	struct pctab pct[MAXD + 1];
@@ -215,7 +228,7 @@ static int g_stop, g_hviol, victim_done;
 static int n_readers, n_updaters, n_mp;
 static int mp_idx[MAX_THR];
 static long trap_budget, async_budget;
-static int opt_step, opt_hstep, opt_exit_step, opt_delay;
+static int opt_step, opt_hstep, opt_exit_step, opt_delay, opt_tsan_nested_release = 1;
 static struct waits crcu_waits;		/* written by the call_rcu helper thread only */
 static uint64_t g_async_handled;
 
@@ -477,6 +490,16 @@ static void handler_body(struct thr *t, int kind, ucontext_t *uc)
 	t->h_validations += 2;
 	uint64_t e = ts_before();
 	c19_w_read_unlock();
+#if VP_TSAN
+	/* ThreadSanitizer runs a pending handler at its next delivery point, and the atomic store of
+	 * the reader word in rcu_read_unlock() is one: the handler then executes between the library's
+	 * cmm_annotate_mem_release(ctr) and the store itself, so its loads are not covered by that
+	 * annotation although they precede the store in program order (x86-TSO / sys_membarrier order
+	 * them; TSan sees neither).  A handler that ran nested inside an interrupted section repeats
+	 * the library's own annotation; nothing is added for outermost handler sections. */
+	if ((w0 & NEST_MASK) && opt_tsan_nested_release)
+		__tsan_release(rd_word_addr());
+#endif
 
 	/* (3) state after */
 	unsigned long w2 = rd_word();
@@ -770,6 +793,7 @@ static void thr_enter(struct thr *t)
 	VP_STORE(t->sig_ok, 1);
 	set_alive(t, 1);
 #endif
+	VP_STORE(t->word_addr, rd_word_addr());
 	VP_STORE(t->registered, 1);
 }
 
@@ -781,6 +805,7 @@ static void thr_leave(struct thr *t)
 	VP_STORE(t->sig_ok, 0);
 	rcu_unregister_thread();
 #endif
+	VP_STORE(t->word_addr, NULL);
 	VP_STORE(t->registered, 0);
 	flush_pv(t);
 }
@@ -858,7 +883,8 @@ static void crcu_cb(struct rcu_head *h)
 {
 	uint64_t r = ts_after();
 	struct obj *o = caa_container_of(h, struct obj, rcu);
-	log_wait(&crcu_waits, o->c, r, 1);
+	if (o->c)
+		log_wait(&crcu_waits, o->c, r, 1);
 	obj_retire(o);
 }
 
@@ -1396,6 +1422,14 @@ static int confirm_stuck(char *buf, size_t len)
 		 (unsigned long long) (calls - rets), region_names[VP_LOAD(thr[0].region)],
 		 (unsigned long long) thr[0].traps_total);
 	if (calls > rets) {
+		fprintf(stderr, "sigrd: stuck: %llu synchronize_rcu() calls in flight; reader words:", (unsigned long long) (calls - rets));
+		for (int i = 0; i < nthr; i++) {
+			unsigned long *wa = VP_LOAD(thr[i].word_addr);
+			if (VP_LOAD(thr[i].registered) && wa)
+				fprintf(stderr, " thr%d=%#lx(hdepth %d, region %s, in_section %d)", i, VP_LOAD(*wa), VP_LOAD(thr[i].hdepth),
+					region_names[VP_LOAD(thr[i].region)], VP_LOAD(thr[i].in_section));
+		}
+		fprintf(stderr, "\n");
 		snprintf(buf, len, "hang:c19:%s", cfgname);
 		return 1;
 	}
@@ -1702,6 +1736,7 @@ int main(int argc, char **argv)
 	chaos_period_us = (uint32_t) vp_arg_long("sig-period-us", 30);
 	chaos_victim_bias = (int) vp_arg_long("victim-bias", opt_step ? 55 : 0);
 	double logscale = vp_arg_double("logscale", 1.0);
+	opt_tsan_nested_release = (int) vp_arg_long("tsan-nested-release", 1);	/* 0: diagnostic only */
 	vp_tun_qs_attempts = (unsigned) vp_arg_long("tun-qs", 2);
 	vp_tun_wait_attempts = (unsigned) vp_arg_long("tun-wait", 50);
 	vp_tun_bp_sleep_ms = (int) vp_arg_long("tun-bp-sleep", 1);
@@ -1778,14 +1813,13 @@ int main(int argc, char **argv)
 		rcu_register_thread();
 #endif
 		struct obj *o = obj_new();
-		o->c = ts_before();
+		o->c = 0;	/* warm-up callback: not logged */
 		vp_lib_thread_slot_base(helper_slot);
 		call_rcu(&o->rcu, crcu_cb);
 		rcu_barrier();
 #if !VP_IS_BP
 		rcu_unregister_thread();
 #endif
-		crcu_waits.n = 0;
 		reg_before = VP_PEEK(registry_count)();
 	}
 
